@@ -4,6 +4,7 @@ import (
 	"encoding/json"
 	"errors"
 	"fmt"
+	"math"
 	"reflect"
 	"strings"
 	"sync"
@@ -108,7 +109,7 @@ type c12Witness struct {
 func init() {
 	core.Register(&core.Check{
 		ID:   "C12",
-		Rule: "schemas: C01's systematic list (atoms, atom pairs, wraps) extended by format atoms (built-in, opt-in and harness-registered validators), hostile and uncompilable patterns, ill-formed bounds (exclusive flag without bound, multipleOf<=0), each alone, merged with and wrapped around C01 atoms, discriminator schemas loaded through the real loader, plus PRNG-drawn random trees; values: C01's universe + directed boundary values + format/number edge values, as float64 and json.Number. Every case is executed in 7 modes (default, FailFast, MultiErrors, message customiser, MultiErrors+customiser, IsMatching, IsMatchingJSON<type>). Distinct = (canonical schema, canonical value); non-trivial = rejected in at least one mode (an error report exists to be checked).",
+		Rule: "schemas: C01's systematic list (atoms, atom pairs, wraps) extended by format atoms (built-in, opt-in and harness-registered validators), hostile and uncompilable patterns, ill-formed bounds (exclusive flag without bound, multipleOf<=0), each alone, merged with and wrapped around C01 atoms, discriminator schemas loaded through the real loader, plus PRNG-drawn random trees; values: C01's universe + directed boundary values + format/number edge values, as float64 and json.Number. Every case is executed in 7 modes (default, FailFast, MultiErrors, message customiser, MultiErrors+customiser, IsMatching, IsMatchingJSON<type>). Non-JSON numbers (NaN, +Inf, -Inf at the top level, as array item, property, nested property, additional property) against every atom and wrappers of numeric schemas: no mode panics, all modes agree. Directional: 96 object schemas with required x readOnly/writeOnly properties (plain, in arrays, nested, under allOf/oneOf/anyOf) x 31 values under VisitAsRequest and VisitAsResponse: fail-fast, multi-error, customised and multi+fail-fast agree with the plain verdict of that direction. Distinct = (canonical schema, canonical value); non-trivial = rejected in at least one mode (an error report exists to be checked).",
 		Assumptions: []string{
 			"pointer convention relied on: for SchemaField=required the pointer is the enclosing object plus the missing key and Value is the enclosing object; otherwise pointer resolves to Value",
 			"only the returned error itself and members of a returned MultiError are asserted (errors under Origin are relative)",
@@ -202,6 +203,7 @@ func runC12(c *core.Ctx) {
 	universe := append(gen.Universe(), extValues()...)
 	atoms := append(gen.Atoms(), extAtoms()...)
 	modes := c12Modes()
+	c.CoverN("workload", "patterns first compiled by a permissive custom regexp compiler", primeCustomRegexCompiler(atoms))
 	idx := 0
 	for _, s := range c12SchemaList(c) {
 		if c.Mine(idx) {
@@ -227,6 +229,8 @@ func runC12(c *core.Ctx) {
 	} else {
 		c.Note("discriminator doc failed to load: %v", err)
 	}
+	c12NonJSONNumbers(c, modes, atoms)
+	c12Directional(c)
 	n := c.Pick(15000, 600000)
 	r := c.Rng("random-schemas")
 	for i := 0; i < n; i++ {
@@ -523,4 +527,130 @@ func replayC12(c *core.Ctx, raw json.RawMessage) {
 		}
 	}
 	c12Schema(c, c12Modes(), s, sc, w.Comp, []any{v})
+}
+
+// c12NonJSONNumbers: values a Go caller (or a YAML body: .nan, .inf) can hand to VisitJSON although JSON cannot spell them,
+// at the top level and nested. No mode may panic and all modes must agree on the verdict.
+func c12NonJSONNumbers(c *core.Ctx, modes []c12mode, atoms []gen.S) {
+	special := map[string]float64{"NaN": math.NaN(), "+Inf": math.Inf(1), "-Inf": math.Inf(-1)}
+	shapes := map[string]func(f float64) any{
+		"top":              func(f float64) any { return f },
+		"array-item":       func(f float64) any { return []any{1.0, f} },
+		"property":         func(f float64) any { return map[string]any{"a": f, "id": f} },
+		"nested-property":  func(f float64) any { return map[string]any{"a": map[string]any{"b": []any{f}}} },
+		"additional-props": func(f float64) any { return map[string]any{"zz": f} },
+	}
+	schemas := append([]gen.S{}, atoms...)
+	for _, inner := range []gen.S{{"type": "integer"}, {"type": "number"}, {"type": "integer", "multipleOf": 2.0}, {"type": "number", "minimum": 0.0}, {"enum": gen.Arr(1.0)}, {}} {
+		schemas = append(schemas, gen.S{"type": "array", "items": inner}, gen.S{"type": "object", "properties": gen.S{"a": inner, "id": inner}}, gen.S{"type": "object", "additionalProperties": inner},
+			gen.S{"type": "object", "properties": gen.S{"a": gen.S{"type": "object", "properties": gen.S{"b": gen.S{"type": "array", "items": inner}}}}},
+			gen.S{"oneOf": gen.Arr(gen.S{"type": "array", "items": inner}, gen.S{"type": "object", "additionalProperties": inner})}, gen.S{"not": gen.S{"type": "array", "items": inner}})
+	}
+	for si, s := range schemas {
+		if !c.Mine(si) {
+			continue
+		}
+		sc, err := kinSchema(s)
+		if err != nil {
+			continue
+		}
+		for sn, mkv := range shapes {
+			for fn, f := range special {
+				desc := fmt.Sprintf("non-JSON number %s at %s against %s", fn, sn, gen.Canon(s))
+				c.BeginLazy(func() string { return desc })
+				base, have := false, false
+				for _, m := range modes {
+					var acc bool
+					c.Eval()
+					v := mkv(f)
+					if pi := core.Guard(func() { acc, _ = m.run(sc, v) }); pi != nil {
+						ft := core.PanicFeatures(pi)
+						ft["value"] = fn + "@" + sn
+						c.Violate(ft, c12Witness{Mode: m.name, Rep: desc}, desc+"\nmode "+m.name+"\n"+pi.Value+"\n"+core.Truncate(pi.Stack, 2500))
+						continue
+					}
+					if !have {
+						base, have = acc, true
+					} else if acc != base {
+						c.Violate(map[string]string{"kind": "verdict_differs_between_modes", "mode": m.name, "value": fn + "@" + sn}, c12Witness{Mode: m.name, Rep: desc}, fmt.Sprintf("%s\ndefault mode accept=%v, mode %s accept=%v", desc, base, m.name, acc))
+					}
+				}
+				c.Cover("non_json_numbers", fn+"@"+sn)
+			}
+		}
+	}
+}
+
+// c12Directional: read-only / write-only properties under VisitAsRequest / VisitAsResponse. Within one direction the
+// fail-fast, multi-error and customised modes must give the verdict of the plain mode.
+func c12Directional(c *core.Ctx) {
+	prop := func(extra gen.S) gen.S {
+		p := gen.S{"type": "integer"}
+		for k, v := range extra {
+			p[k] = v
+		}
+		return p
+	}
+	var schemas []gen.S
+	for _, flag := range []gen.S{{"readOnly": true}, {"writeOnly": true}, {"readOnly": true, "writeOnly": true}, {}} {
+		for _, req := range [][]any{nil, gen.Arr("a"), gen.Arr("a", "b"), gen.Arr("b")} {
+			obj := gen.S{"type": "object", "properties": gen.S{"a": prop(flag), "b": gen.S{"type": "string"}}}
+			if req != nil {
+				obj["required"] = req
+			}
+			schemas = append(schemas, obj, gen.S{"type": "array", "items": obj}, gen.S{"type": "object", "properties": gen.S{"n": obj}, "required": gen.Arr("n")},
+				gen.S{"allOf": gen.Arr(obj, gen.S{"type": "object"})}, gen.S{"oneOf": gen.Arr(obj, gen.S{"type": "string"})}, gen.S{"anyOf": gen.Arr(obj, gen.S{"type": "object", "required": gen.Arr("zz")})})
+		}
+	}
+	inner := []any{gen.S{}, gen.S{"a": 1.0}, gen.S{"b": "x"}, gen.S{"a": 1.0, "b": "x"}, gen.S{"a": "bad"}, gen.S{"a": nil}, gen.S{"a": 1.0, "b": 2.0}}
+	var values []any
+	for _, v := range inner {
+		values = append(values, v, gen.Arr(v), gen.Arr(v, gen.S{}), gen.S{"n": v})
+	}
+	values = append(values, "s", nil, gen.Arr())
+	type dir struct {
+		name string
+		opt  openapi3.SchemaValidationOption
+	}
+	type variant struct {
+		name string
+		opts []openapi3.SchemaValidationOption
+	}
+	variants := []variant{{"plain", nil}, {"failfast", []openapi3.SchemaValidationOption{openapi3.FailFast()}}, {"multi", []openapi3.SchemaValidationOption{openapi3.MultiErrors()}},
+		{"customizer", []openapi3.SchemaValidationOption{openapi3.SetSchemaErrorMessageCustomizer(customizer)}}, {"multi+failfast", []openapi3.SchemaValidationOption{openapi3.MultiErrors(), openapi3.FailFast()}}}
+	for si, s := range schemas {
+		if !c.Mine(si) {
+			continue
+		}
+		sc, err := kinSchema(s)
+		if err != nil {
+			continue
+		}
+		for _, v := range values {
+			for _, d := range []dir{{"asRequest", openapi3.VisitAsRequest()}, {"asResponse", openapi3.VisitAsResponse()}} {
+				desc := fmt.Sprintf("%s schema=%s value=%s", d.name, gen.Canon(s), gen.Canon(v))
+				c.BeginLazy(func() string { return desc })
+				base := false
+				for vi, vr := range variants {
+					opts := append([]openapi3.SchemaValidationOption{d.opt}, vr.opts...)
+					kv := gen.CloneValue(v)
+					var verr error
+					c.Eval()
+					if pi := core.Guard(func() { verr = sc.VisitJSON(kv, opts...) }); pi != nil {
+						c12ReportPanic(c, s, "", v, d.name, vr.name, pi)
+						continue
+					}
+					acc := verr == nil
+					if vi == 0 {
+						base = acc
+					} else if acc != base {
+						c.Violate(map[string]string{"kind": "verdict_differs_between_modes", "mode": d.name + "+" + vr.name, "value": "directional"}, c12W(s, "", v, d.name, vr.name),
+							fmt.Sprintf("%s\nplain accept=%v, %s accept=%v (%v)", desc, base, vr.name, acc, verr))
+					}
+					c.Cover("directional", d.name+"/"+vr.name+"/"+map[bool]string{true: "accept", false: "reject"}[acc])
+				}
+				c.Distinct("directional\x00" + desc)
+			}
+		}
+	}
 }
